@@ -651,14 +651,16 @@ int parse_instruction_msp430(AsmContext *asm_context, char *instr)
       {
         if (operands[0].value == 0)
         {
-          asm_context->memory_write(asm_context->address, 1, asm_context->tokens.line);
+          // 2, not 1: 1 tells operand_to_cg() that an immediate of this
+          // instruction was a forward reference and must not use CG.
+          asm_context->memory_write(asm_context->address, 2, asm_context->tokens.line);
           operands[0].type = OPTYPE_REGISTER_INDIRECT;
         }
       }
         else
       {
         if (operands[0].value == 0 &&
-            asm_context->memory_read(asm_context->address) == 1)
+            asm_context->memory_read(asm_context->address) == 2)
         {
           operands[0].type = OPTYPE_REGISTER_INDIRECT;
         }
